@@ -106,15 +106,15 @@ def groups():
         if op == 'HALT':
             props.append('C17')
         gs.append(Group(f'step_{op}', props, 'Theo::VM::executeSingle (VM/src/vm.cpp), case OpCode::' + op,
-                        f'c_step_{op}', _step_build(op), timeout=900,
-                        expect_loops=1 if op == 'PREPARE_EXEC' else 0))
+                        f'c_step_{op}', _step_build(op), timeout=3600,
+                        expect_loops=1 if op == 'PREPARE_EXEC' else 0, spec_checks=True))
     gs.append(Group('stepU_PREPARE_EXEC', STEP_PROPS, 'Theo::VM::executeSingle (VM/src/vm.cpp), case OpCode::PREPARE_EXEC', 'c_step_PREPARE_EXEC',
                     _prepare_bounded_build, timeout=900,
                     bounded='BOUNDED stand-in: frame size count <= 3, zero-fill loop unwound (--unwind 6 --unwinding-assertions) instead of its loop contract; catches changes of the loop shape that make the loop contract inapplicable'))
     gs.append(Group('vmU_disassemble', ['C08', 'C18'], 'Theo::Program::disassemble (VM/src/program.cpp)', 'c_disassemble', _disasm_build, timeout=600,
                     bounded='BOUNDED stand-in: a program of one instruction, line_info of capacity 2, --unwind 3'))
     gs.append(Group('step_ALL_unsliced', STEP_PROPS + ['C17', 'C18'], 'Theo::VM::executeSingle (VM/src/vm.cpp), unsliced, all 12 cases',
-                    'c_step_any', _step_all_build, timeout=3600, tier='thorough', expect_loops=1,
+                    'c_step_any', _step_all_build, timeout=7200, tier='thorough', expect_loops=1, spec_checks=True,
                     note='cross-check: the general contract used as callee contract of execute holds on the unsliced body'))
     gs.append(Group('execute', ['C06', 'C17', 'C05', 'C03', 'C19', 'C20', 'C18'], 'Theo::VM::execute (VM/src/vm.cpp)', 'c_execute', _execute_build,
                     timeout=1800, expect_loops=1,
